@@ -372,13 +372,14 @@ CLAIMS = {
        "resources of one type have different property sets - exhibited by an abstract two-Boolean obligation over the code facts above plus "
        "C01's 'unresolved = FAIL' (this one obligation is about a model of the round trip, not about one function's MIR) and replayed by "
        "rulegen + validate. Also not decided: what serde's to_string prints for a value, the quoting / newline stripping, serde's reading of the template, the name "
-       "mangling (`::` -> `_`, lower case) beyond the call sequence. No Kani harness serves this property."
+       "mangling (`::` -> `_`, lower case) beyond the call sequence. Kani harnesses: only the three comparison-kernel ones named below."
        "Added later: the template is read exactly once, by serde_yaml::from_str (a second, differently rounding reader tried first refutes it); long-float template in the replay; KF3 (rule names not injective)."
-       " Added last: the validate loader's scalar typing cascade (C11) also runs here: the round trip needs validate to read a number wherever rulegen's serde reader read one.",
+       " Added last: the validate loader's scalar typing cascade (C11) also runs here: the round trip needs validate to read a number wherever rulegen's serde reader read one."
+       " Kani part (added last): the comparison kernel the generated `==` clauses rest on - compare_values on Int x Int (all pairs: equal iff the same integer) and Int x Float (never comparable, 1 vs 1.0 included) - runs here too (harnesses k1_int, k1x_int_float + vacuity twin), because `changing a value to one not present makes the rule FAIL` needs distinct numbers to compare unequal.",
   design="0b/C19"),
 }
 
-MIR_ONLY = {"C05", "C07", "C11", "C12", "C14", "C15", "C19"}
+MIR_ONLY = {"C05", "C07", "C11", "C12", "C14", "C15"}
 
 NA = {
 }
